@@ -306,6 +306,11 @@ struct DriverT {
   // run op() with the k-th allocation failing, k = 1, 2, ... until it completes
   template <class F>
   auto with_faults(const char* opname, const Bytes& k, F op) {
+#ifdef NDEBUG
+    (void)opname;
+    (void)k;
+    return op();  // the allocation failure injector exists in assertion-enabled builds only
+#else
     if (!faults) return op();
     for (unsigned n = 1;; ++n) {
       bool threw = false;
@@ -341,6 +346,7 @@ struct DriverT {
       }
       if (n > 64) std::abort();  // an operation cannot need that many allocations
     }
+#endif
   }
 
   bool do_insert(const Bytes& k, std::size_t vlen) {
